@@ -523,6 +523,11 @@ impl Subscription {
             .read_partition(partition_id, *from_sequence, IterDirection::Forward)
             .await?;
         'iter: while let Some(commits) = iter.next_batch(DEFAULT_BATCH_SIZE).await? {
+            #[cfg(sierra_db_sierradb_verif)]
+            sierradb::verif::point(
+                "sub.hist.partition_batch",
+                &[("partition", partition_id as u64), ("commits", commits.len() as u64)],
+            );
             for commit in commits {
                 let Some(first_partition_sequence) = commit.first_partition_sequence() else {
                     continue;
@@ -684,6 +689,11 @@ impl Subscription {
             )
             .await?;
         while let Some(commits) = iter.next_batch(DEFAULT_BATCH_SIZE).await? {
+            #[cfg(sierra_db_sierradb_verif)]
+            sierradb::verif::point(
+                "sub.hist.stream_batch",
+                &[("partition", partition_id as u64), ("commits", commits.len() as u64)],
+            );
             for commit in commits {
                 let Some(first_partition_sequence) = commit.first_partition_sequence() else {
                     continue;
